@@ -8,8 +8,8 @@
    domain) - resolved by arbitrary "coins" over which every theorem quantifies.  Requests of a
    history are TakeTokens with any key list and amount n >= 0, GetBucketState, SetBucketState,
    ResetRateBuckets and SetDefaultBucketState at arbitrary points.
-   Domain: refill interval P/N >= 1 ns (below: finding F23) and P <= 2^62 ns (above: F18) (lim_ok);
-   configurations with taken <= N (fresh_cfg; above: F24); non-decreasing clock
+   Domain: 0 <= P <= 2^62 ns (above: finding F18); the bucket's interval is max 1 (P/N) ns (lim_ok,
+   fresh_cfg; P < N is clamped to 1 ns since 7348cd5bb, taken > N means empty since 4e20ebf0e); non-decreasing clock
    (timeline); amounts n >= 0 (nonneg_in).  Float rounding itself is bridged by measurement
    (Model.agrees / tr_xdiff), not by a theorem: hence `_partial` in the manifest wording. *)
 From Coq Require Import List NArith ZArith Lia Floats.
@@ -21,6 +21,10 @@ Local Open Scope Z_scope.
 Lemma allowN_reserves_nothing_in_the_future : rates_max_future_reserve = 0.
 Proof. reflexivity. Qed.
 Lemma inf_duration_is_max_int64 : rates_inf_duration = maxd.
+Proof. reflexivity. Qed.
+Lemma reset_clamps_sub_ns_interval : rates_sub_ns_interval_clamped = true.   (* 7348cd5bb *)
+Proof. reflexivity. Qed.
+Lemma reset_caps_taken_at_count : rates_taken_capped_at_count = true.      (* 4e20ebf0e *)
 Proof. reflexivity. Qed.
 Lemma modelled_rules_present :
   (rates_inf_is_max_float64 && rates_admit_rule_is_burst_and_no_wait && rates_tokens_capped_at_burst
@@ -37,20 +41,31 @@ Theorem window_bound : forall s k l h t0 t1,
   admitted k s h <= xburst l + (t1 - t0) / xI l + 1.
 Proof. exact window_bound_proved. Qed.
 
-(* 2. A bucket set to a configuration (SetBucketState / reset) holding N - taken tokens admits
+(* 2. A bucket set (SetBucketState / reset) to any configuration of N >= 1 operations per period
+   0 <= P <= 2^62 ns with any number taken holds fresh_tokens = max 0 (N - taken) tokens: it admits
    exactly that many single operations at that instant and refuses the next, whatever the coins;
-   likewise a bucket created from its limit's default state by its first request. *)
+   likewise a bucket created from its limit's default state by its first request.  This includes
+   P < N (interval clamped to 1 ns) and taken > N (empty bucket). *)
 Theorem fresh_admits_exactly_N : forall s t k st cs,
   fresh_cfg st -> maxd <= t -> fst (xset s t k st) = true ->
-  length cs = (Z.to_nat (bs_max st - bs_taken st) + 1)%nat ->
-  take_seq (snd (xset s t k st)) t k cs = repeat true (Z.to_nat (bs_max st - bs_taken st)) ++ [false].
+  length cs = (Z.to_nat (fresh_tokens st) + 1)%nat ->
+  take_seq (snd (xset s t k st)) t k cs = repeat true (Z.to_nat (fresh_tokens st)) ++ [false].
 Proof. exact fresh_admits_exactly_N_proved. Qed.
 
 Theorem first_use_admits_exactly_N : forall s t k st cs,
   fresh_cfg st -> maxd <= t -> aget key_eqb k (s_b s) = None -> aget N.eqb (fst k) (s_d s) = Some st ->
-  length cs = (Z.to_nat (bs_max st - bs_taken st) + 1)%nat ->
-  take_seq s t k cs = repeat true (Z.to_nat (bs_max st - bs_taken st)) ++ [false].
+  length cs = (Z.to_nat (fresh_tokens st) + 1)%nat ->
+  take_seq s t k cs = repeat true (Z.to_nat (fresh_tokens st)) ++ [false].
 Proof. exact first_use_admits_exactly_N_proved. Qed.
+
+(* 2b. A declared rate above one operation per nanosecond (0 <= P < N) is served by a genuine
+   bucket of burst N refilled at 1 token per ns (xI = 1).  Hence, by window_bound / idle_cap with
+   I = 1: at most N at one instant, at most N + T + 1 in a window of T ns - never more than the
+   declared N + T*N/P, but the long-run rate is capped at 10^9 operations per second, below the
+   declared one.  (Whole nanoseconds cannot express a shorter interval.) *)
+Theorem sub_ns_interval_bucket : forall st t, fresh_cfg st -> bs_period st < bs_max st -> maxd <= t ->
+  x_new st t = mkXL XNorm (bs_max st) 1 (fresh_tokens st) t false.
+Proof. exact sub_ns_bucket_proved. Qed.
 
 (* 3. A limit of 0 admits nothing: once a bucket is a zero-limit bucket no history admits a
    single operation for it; both ways such a bucket comes into being produce one. *)
@@ -153,20 +168,25 @@ Example float_whole_token_1ns_refused :
   f_takes (f_new (mkBS 3 3 0) 63902822400000000000) 63902822400000000000 5 = [true; true; true; false; false].
 Proof. vm_compute. split; reflexivity. Qed.
 
-(* ---- outside `fresh_cfg` the faithful model X itself refutes the fresh-bucket clause
-     forall st, 1 <= bs_max st -> 0 <= bs_period st -> a bucket set to st admits exactly
-       max 0 (bs_max st - bs_taken st) single operations at that instant:
-   F23 - an interval P/N below 1 ns (P < N, P = 0) makes the bucket unlimited (excluded by
-         `1 <= P/N` of fresh_cfg);
-   F24 - taken > N leaves the bucket full instead of empty (excluded by `taken <= N`). *)
-Theorem fresh_sub_ns_interval_refuted : exists st t,
-  1 <= bs_max st /\ 0 <= bs_period st /\ bs_taken st = 0 /\ maxd <= t /\
-  take_seq (set_default sys0 1 st) t (1, 0)%N (repeat [] (Z.to_nat (bs_max st) + 1)) = repeat true (Z.to_nat (bs_max st) + 1).
-Proof. exists (mkBS 5 10 0), 63902822400000000000. vm_compute. repeat split; discriminate. Qed.
-Theorem overtaken_bucket_full_refuted : exists st t,
-  1 <= bs_max st /\ 1 <= Z.quot (bs_period st) (bs_max st) /\ bs_max st < bs_taken st /\ maxd <= t /\
-  take_seq (set_default sys0 1 st) t (1, 0)%N [[]; []; []; []] = [true; true; true; false].
-Proof. exists (mkBS 3000 3 5), 63902822400000000000. vm_compute. repeat split; discriminate. Qed.
+(* ---- the two earlier forms of bucketType.reset (x_new_gen with the flag off) refute clause 2:
+   F23, before 7348cd5bb - an interval of 0 ns gave the infinite rate: the limiter admits whatever
+        it is asked, at any time, from any state;
+   F24, before 4e20ebf0e - taken > N was refused by the priming allowN and the bucket stayed full
+        (credit N*I at the instant of the override) although fresh_tokens is 0. *)
+Theorem fresh_sub_ns_interval_refuted_before_7348cd5bb : exists st t,
+  fresh_cfg st /\ maxd <= t /\ xk (x_new_gen false true st t) = XInf /\
+  forall l coin now n, xk l = XInf -> fst (x_allow coin l now n) = true.
+Proof.
+  exists (mkBS 5 10 0), 63902822400000000000. split; [unfold fresh_cfg, capmax; cbn; lia|].
+  split; [vm_compute; discriminate|]. split; [reflexivity|]. intros l coin now n K. unfold x_allow. rewrite K. reflexivity.
+Qed.
+Theorem overtaken_bucket_full_refuted_before_4e20ebf0e : exists st t,
+  fresh_cfg st /\ maxd <= t /\ fresh_tokens st = 0 /\
+  pot (x_new_gen true false st t) t = xcap (x_new_gen true false st t) /\ 0 < xcap (x_new_gen true false st t).
+Proof.
+  exists (mkBS 3000 3 5), 63902822400000000000. split; [unfold fresh_cfg, capmax; cbn; lia|].
+  split; [vm_compute; discriminate|]. vm_compute. repeat split.
+Qed.
 
 (* ---- non-vacuity: concrete states meeting the hypotheses, computed *)
 Definition ex_t0 : Z := 63902822400000000000.
@@ -191,11 +211,19 @@ Proof.
   split; [unfold ex_hist; repeat constructor|]. split; vm_compute; reflexivity.
 Qed.
 
+Example fresh_sub_ns_and_overtaken_nonvacuous :
+  (* 10 per 5 ns: exactly 10 at once; 12 of 10 taken: nothing *)
+  fresh_cfg (mkBS 5 10 0) /\ fresh_cfg (mkBS 5 10 12) /\
+  take_seq (set_default sys0 1 (mkBS 5 10 0)) ex_t0 (1, 0)%N (repeat [true] 11) = repeat true 10 ++ [false] /\
+  take_seq (set_default sys0 1 (mkBS 5 10 12)) ex_t0 (1, 0)%N [[true]] = [false] /\
+  take_seq (set_default sys0 1 (mkBS 3000 3 5)) ex_t0 (1, 0)%N [[true]] = [false].
+Proof. split; [unfold fresh_cfg, capmax; cbn; lia|]. split; [unfold fresh_cfg, capmax; cbn; lia|]. vm_compute. repeat split. Qed.
+
 Example fresh_nonvacuous :
   let st := mkBS 3000 3 1 in
   fresh_cfg st /\ fst (xset ex_sys ex_t0 (1, 1)%N st) = true /\
   take_seq (snd (xset ex_sys ex_t0 (1, 1)%N st)) ex_t0 (1, 1)%N [[true]; [true]; [true]] = [true; true; false].
-Proof. vm_compute. repeat split; discriminate. Qed.
+Proof. split; [unfold fresh_cfg, capmax; cbn; lia|]. vm_compute. repeat split. Qed.
 
 Example zero_nonvacuous :
   let s := snd (xset (set_default ex_sys 3 (mkBS 1000 0 0)) ex_t0 (3, 0)%N (mkBS 1000 0 0)) in
@@ -263,6 +291,7 @@ Print Assumptions request_admitted_iff_all_applicable_limits_admit.
 Print Assumptions request_admitted_iff_all_applicable_limits_admit_strict.
 Print Assumptions non_applicable_limits_untouched.
 Print Assumptions refused_request_consumes_nothing.
-Print Assumptions fresh_sub_ns_interval_refuted.
-Print Assumptions overtaken_bucket_full_refuted.
+Print Assumptions sub_ns_interval_bucket.
+Print Assumptions fresh_sub_ns_interval_refuted_before_7348cd5bb.
+Print Assumptions overtaken_bucket_full_refuted_before_4e20ebf0e.
 Print Assumptions fresh_admits_float_refuted.
